@@ -14,11 +14,6 @@ def heightWrites (ws : List SW) : List Nat := ws.filterMap fun w => match w with
 def savedHeights (ws : List SW) : List Nat := ws.filterMap fun w => match w with | .saveBlock h _ => some h | _ => none
 def stateWrites (ws : List SW) : List State := ws.filterMap fun w => match w with | .updateState s => some s | _ => none
 
-theorem AppliedWrites.le {h h' : Nat} {ws : List SW} (a : AppliedWrites c ch h ws h') : h ≤ h' := by
-  induction a with
-  | nil => exact Nat.le_refl _
-  | cons _ _ _ ih => omega
-
 /-- the chain-height writes and the block saves of a step go through consecutive heights, one each -/
 theorem AppliedWrites.consecutive {h h' : Nat} {ws : List SW} (a : AppliedWrites c ch h ws h') :
     heightWrites ws = List.range' (h + 1) (h' - h) ∧ savedHeights ws = List.range' (h + 1) (h' - h) ∧
@@ -273,6 +268,86 @@ theorem runJFrom_append (c : Cfg) (ch : PChain) (n : FNode) (j1 j2 : List JOp) :
 theorem runJ_safe (g : GoodChain c ch top) (js : List JOp) (hj : JunkOK ch js) :
     SafeJ true c ch (c.initialHeight - 1) (evsOf (opsOf js)) (runJ c ch js) := by
   simpa [runJ] using (runJFrom_safe g js hj (fresh_safe g).weaken (fresh_quiet g)).1
+
+/-! ### the data seen-set along runs with junk -/
+
+theorem reboot_seen (g : GoodChain c ch top) (hs : SafeJ jk c ch h0 evs n) (hq : Quiet n) (h : SeenApplied ch n) :
+    SeenApplied ch (reboot c n) := by
+  rw [(reboot_spec g hs hq).2]
+  obtain ⟨_, e1, _, _, _, _, e5, _⟩ := restart_spec g hs
+  exact h.congr e5 (by omega)
+
+theorem stepJ_seen (g : GoodChain c ch top) (hs : SafeJ true c ch h0 evs n) (hq : Quiet n) (h : SeenApplied ch n)
+    (j : JOp) (hj : ∀ d, j = .junk d → JunkData ch d) : SeenApplied ch (stepJ c ch n j) := by
+  cases j with
+  | op o =>
+    cases o with
+    | ev e => exact deliver_seen g hs h e
+    | restart => exact reboot_seen g hs hq h
+  | junk d => exact junk_seen g hs h (hj d rfl)
+
+theorem runJFrom_seen (g : GoodChain c ch top) (js : List JOp) (hj : JunkOK ch js) : ∀ {evs : List Ev} {n : FNode},
+    SafeJ true c ch h0 evs n → Quiet n → SeenApplied ch n → SeenApplied ch (runJFrom c ch n js) := by
+  induction js with
+  | nil => intro evs n _ _ h; exact h
+  | cons j js ih =>
+    intro evs n hs hq h
+    have hj1 : ∀ d, j = .junk d → JunkData ch d := fun d e => hj d (by rw [e]; exact List.mem_cons_self ..)
+    obtain ⟨a1, a2, _⟩ := stepJ_safe g hs hq j hj1
+    exact ih (fun d hd => hj d (List.mem_cons_of_mem _ hd)) a1 a2 (stepJ_seen g hs hq h j hj1)
+
+theorem fresh_seenD (g : GoodChain c ch top) : (fresh c).seenD = [] := by
+  obtain ⟨n, ws, h1, h2⟩ := start_spec g (diskOK_empty g) {}
+  obtain ⟨ws', h3⟩ := start_fresh c
+  rw [h3] at h1
+  simp only [Option.some.injEq, Prod.mk.injEq] at h1
+  rw [h1.1]; exact h2.sD
+
+theorem runJ_seen (g : GoodChain c ch top) (js : List JOp) (hj : JunkOK ch js) : SeenApplied ch (runJ c ch js) := by
+  apply runJFrom_seen g js hj (fresh_safe g).weaken (fresh_quiet g)
+  intro x hx
+  rw [fresh_seenD g] at hx
+  cases hx
+
+/-- **a genuine data event above the chain height is never refused after junk**: under `DistinctCommitments` its
+commitment is not in the seen-set (which names applied blocks only), so it is cached — in front of whatever junk sits
+at that height — and stays there until its block is applied; if its header is already cached and it is the next
+height, the block is applied at once -/
+theorem junk_never_blocks (g : GoodChain c ch top) (dc : DistinctCommitments ch) (hs : SafeJ true c ch h0 evs n)
+    (hsa : SeenApplied ch n) {k : Nat} {b : Block} (hb : ch k = some b) (hne : ¬ IsEmpty b) (hk : n.store.height < k) :
+    (k ≤ (deliver ch n (.dat k)).1.store.height ∨ getD (deliver ch n (.dat k)).1 k = some b.data) ∧
+    (k = n.store.height + 1 → k ∈ keysH n → k ≤ (deliver ch n (.dat k)).1.store.height) := by
+  have hnot : ¬ (b.data.daCommitment ∈ n.seenD ∨ k ≤ n.store.height) := by
+    intro h
+    rcases h with h | h
+    · obtain ⟨j, bj, a1, a2, a3, a4⟩ := hsa _ h
+      have := dc.dcInj _ _ _ _ hb a1 hne a2 a3
+      omega
+    · omega
+  have e : deliver ch n (.dat k) = syncAfter (cacheD n k b.data) := by
+    simp only [deliver, hb]
+    rcases onData_cases g hs hb hne with ⟨h, _⟩ | ⟨_, e⟩
+    · exact absurd h hnot
+    · exact e
+  rw [e]
+  have hs1 := cacheD_safe g hs hb
+  have hg : getD (cacheD n k b.data) k = some b.data := by simp [getD, cacheD]
+  obtain ⟨m1, m2⟩ := trySync_keeps g ((cacheD n k b.data).hdrCache.length + 1) _ hs1 k b b.data hb
+    (goodData_self g hb) hg hk
+  refine ⟨m2.imp id (fun x => x.1), fun hk1 hkH => ?_⟩
+  rcases m2 with m2 | ⟨m2, m3⟩
+  · exact m2
+  · have hq := syncAfter_quiet g hs1
+    have hh : (syncAfter (cacheD n k b.data)).1.store.height = n.store.height ∨
+        k ≤ (syncAfter (cacheD n k b.data)).1.store.height := by
+      have : n.store.height ≤ (syncAfter (cacheD n k b.data)).1.store.height := m1
+      omega
+    rcases hh with hh | hh
+    · exfalso
+      apply hq
+      rw [hh, ← hk1]
+      exact ⟨m3 hkH, mem_keys.mpr ⟨_, getD_some m2⟩⟩
+    · exact hh
 
 /-- a run without junk items is a `runOps` run -/
 theorem runJ_ops (c : Cfg) (ch : PChain) (ops : List Op) : runJ c ch (ops.map .op) = runOps c ch ops := by
